@@ -75,6 +75,10 @@ def build_world(tmpdir, small=False):
             rows.append((chrom, start, end, gene, round(log2, 6), depth, weight))
     cols = ["chromosome", "start", "end", "gene", "log2", "depth", "weight"]
     W["cnr"] = CNA.from_rows(rows, cols, {"sample_id": "S1"})
+    # the same bins with nothing for a filter to drop (no null coverage, no zero weight): with every filter off the
+    # code paths that normally re-slice (and thereby copy) their argument work on whatever object they were given
+    clean = [r[:4] + ((0.0, 100.0) if r[4] <= -20 else (r[4], r[5])) + (r[6] or 0.7,) for r in rows]
+    W["cnr_clean"] = CNA.from_rows(clean, cols, {"sample_id": "S1"})
     # segments with the columns filters and exports need
     segs = []
     for ci, (chrom, n) in enumerate(chroms):
@@ -168,6 +172,10 @@ OPS = {
     "segment-hmm-germline": _seg("hmm-germline"),
     "segment-none-skiplow": _seg("none", skip_low=True, min_weight=0.6),
     "segment-haar-skiplow": _seg("haar", skip_low=True, skip_outliers=0),
+    **{
+        f"segment-{m}-nofilter": (lambda m: lambda W: segmentation.do_segmentation(W["cnr_clean"], m, skip_low=False, skip_outliers=0, min_weight=0))(m)
+        for m in ("none", "haar", "hmm", "hmm-tumor", "hmm-germline")
+    },
     "segment-none-p2": _seg("none", 2),
     "segment-none-p3": _seg("none", 3),
     "segment-none-p16": _seg("none", 16),
@@ -621,7 +629,7 @@ def run_writers(case, ctx):
 
 
 MANIFEST = {
-    "text": "Explicit-state search over call histories on one shared world of argument objects (57 operations covering the "
+    "text": "Explicit-state search over call histories on one shared world of argument objects (62 operations covering the "
     "pipeline steps and array methods the property names): every history of length 1 (x3 global RNG states) and 2, plus "
     "3- and 4-step histories over the most stateful operations, each replayed from a pristine forked process; after every "
     "step the fingerprint of all arguments and files must be unchanged and the result must equal the operation's first-call "
